@@ -276,6 +276,10 @@ class IPCServer(IPCBase):
                 self.sock.settimeout(timeout)
 
     def __enter__(self) -> IPCServer:
+        # Each connection starts with clean framing state: the leftovers of a client that
+        # went away in the middle of a frame must not be glued to the next client's data.
+        self.buffer = bytearray()
+        self.message_size = None
         if sys.platform == "win32":
             # NOTE: It is theoretically possible that this will hang forever if the
             # client never connects, though this can be "solved" by killing the server
